@@ -10,6 +10,9 @@ package network
 // Stage H: the in-package handshake handlers handleSignatureRequest /
 //          handleSignatureResponse on hand-made Peer objects (fake conn),
 //          observing whether the next handler is reached and with which id.
+// Stage M: several sessions on ONE responder Authenticator: recorded honest
+//          transcripts replayed (SecureParam and/or SignatureRequest) by a
+//          key-less attacker on a later connection; session secrets must be fresh.
 // Stage I: histories of > peerIDCacheSize honest handshakes; every identity
 //          handed out earlier must keep its bytes (the ids live in a shared LRU).
 // Stage R: real SecureRequest/SecureResponse exchanges (fresh ECDH per session)
@@ -445,6 +448,11 @@ func (c *c32Conn) Close() error {
 	}
 	return nil
 }
+func (c *c32Conn) drop() {
+	c.mu.Lock()
+	c.buf.Reset()
+	c.mu.Unlock()
+}
 func (c *c32Conn) LocalAddr() net.Addr                { return nil }
 func (c *c32Conn) RemoteAddr() net.Addr               { return nil }
 func (c *c32Conn) SetDeadline(t time.Time) error      { return nil }
@@ -644,6 +652,7 @@ type c32Session struct {
 	ac             *Authenticator // client side authenticator (fresh)
 	pc, ps         *Peer
 	cc, cs         *c32Conn
+	secReq         *Packet
 	sigReq         *Packet
 	sigResp        *Packet
 	nextC          *c32Next
@@ -670,6 +679,7 @@ func (e *c32Env) c32Open(as *Authenticator, client *c32Ident) *c32Session {
 	}
 	s.ac.onPeer(s.pc)
 	secReq := one(s.cc, "SecureRequest")
+	s.secReq = secReq
 	as.onPeer(s.ps)
 	as.onPacket(secReq, s.ps)
 	secResp := one(s.cs, "SecureResponse")
@@ -979,6 +989,214 @@ func (e *c32Env) runHistory(r *ev.Run, c *c32HistCase, steps, checks *int64) {
 	}
 }
 
+// ---------------------------------------------------------------- stage M (several sessions on ONE responder; transcript replay)
+
+// Earlier sessions of honest peers on the same responder Authenticator are
+// recorded (SecureRequest and SignatureRequest as they went over the wire with
+// SecureSuite "none"). A later connection is driven by an attacker who owns no
+// victim key and sends every combination of {SecureParam recorded in an earlier
+// session | a fresh one} x {SignatureRequest recorded in an earlier session |
+// the victim's public key with a signature by the attacker's key | an honest
+// proof of the attacker's own identity}. An identity may be assigned only in
+// the last case. White box: the secret of the new session must differ from
+// the secret of every earlier session even when the dialer's parameter is a
+// replay (the responder contributes a fresh ephemeral key to every session).
+
+type c32MultiCase struct {
+	Stage  string `json:"stage"`
+	Honest []int  `json:"honest"` // identities (0=A,1=B,2=C) of the earlier, honest sessions, in order
+	Suite  int    `json:"suite"`  // SecureSuite the attacker's connection negotiates
+	Aead   int    `json:"aead"`   // SecureAeadSuite
+	Param  int    `json:"param"`  // j>=0: SecureParam replayed from honest session j; -1: fresh
+	Sig    int    `json:"sig"`    // j>=0: SignatureRequest replayed from session j; -1: victim's key + attacker's signature; -2: honest proof of the attacker's own key; -3: none (secret check only)
+	Desc   string `json:"desc,omitempty"`
+}
+
+type c32MultiCounters struct{ refused, accepted, secretChecks int64 }
+
+func (e *c32Env) runMulti(r *ev.Run, c *c32MultiCase, mc *c32MultiCounters) {
+	r.Eval(1)
+	pn := func(j int) string {
+		if j >= 0 {
+			return fmt.Sprintf("replayed from session #%d", j)
+		}
+		return map[int]string{-1: "fresh / victim's key with the attacker's signature", -2: "honest proof of the attacker's own key", -3: "none"}[j]
+	}
+	c.Desc = fmt.Sprintf("honest sessions of %v, then a connection with suite=%v aead=%v SecureParam: %s; SignatureRequest: %s",
+		c.Honest, SecureSuite(c.Suite), SecureAeadSuite(c.Aead), map[bool]string{true: pn(c.Param), false: "fresh"}[c.Param >= 0], pn(c.Sig))
+	as := newAuthenticator(e.self.w, e.log)
+	nextS := c32NewNext()
+	as.setNext(nextS)
+	attacker := c32MultiAttacker() // owns its own key only, never a victim's
+	var sessions []*c32Session
+	var ps *Peer
+	defer func() {
+		for _, s := range sessions {
+			s.pc.Close("verif: case finished")
+			s.ps.Close("verif: case finished")
+		}
+		if ps != nil {
+			ps.Close("verif: case finished")
+		}
+	}()
+	fail := func(sig, detail string) { r.Violation(sig, detail+" — "+c.Desc, c) }
+	var secrets [][]byte
+	pan := ev.Catch(func() {
+		for _, who := range c.Honest {
+			s := e.c32Open(as, e.ids[who])
+			sessions = append(sessions, s)
+			as.onPacket(s.sigReq, s.ps)
+			s.cs.drop()
+			if nextS.called[s.ps] != 1 || !bytes.Equal(nextS.id[s.ps].Bytes(), e.ids[who].idWant) {
+				fail("handshake-request-refused-valid-proof", fmt.Sprintf("honest session of %s was not authenticated", e.ids[who].name))
+			}
+			secrets = append(secrets, append([]byte(nil), s.serverSecret...))
+		}
+	})
+	if pan != "" {
+		fail("panic-in-secure-exchange", pan)
+		return
+	}
+	// the later connection
+	conn := c32NewConn()
+	ps = newPeer(conn, true, "", e.log)
+	var param []byte
+	var own *secureKey
+	if c.Param >= 0 {
+		var rm SecureRequest
+		if _, err := codec.MP.UnmarshalFromBytes(sessions[c.Param].secReq.payload, &rm); err != nil {
+			panic(err)
+		}
+		param = rm.SecureParam
+	} else {
+		own = newSecureKey(DefaultSecureEllipticCurve, nil)
+		param = own.marshalPublicKey()
+	}
+	var resp SecureResponse
+	pan = ev.Catch(func() {
+		as.onPeer(ps)
+		req := &SecureRequest{Channel: "c32", SecureSuites: []SecureSuite{SecureSuite(c.Suite)}, SecureAeadSuites: []SecureAeadSuite{SecureAeadSuite(c.Aead)}, SecureParam: param}
+		as.onPacket(newPacket(p2pProtoAuth, p2pProtoAuthSecureRequest, codec.MP.MustMarshalToBytes(req), NewPeerID(attacker.idWant)), ps)
+		pk := conn.packets() // the SecureResponse is written before the connection is wrapped
+		if len(pk) != 1 {
+			panic(fmt.Sprintf("%d packets instead of one SecureResponse", len(pk)))
+		}
+		if _, err := codec.MP.UnmarshalFromBytes(pk[0].payload, &resp); err != nil {
+			panic(err)
+		}
+	})
+	if pan != "" {
+		fail("panic-in-secure-exchange", pan)
+		return
+	}
+	if resp.SecureError != SecureErrorNone || ps.IsClosed() || ps.secureKey == nil || len(ps.secureKey.extra) == 0 {
+		fail("secure-exchange-refused", fmt.Sprintf("SecureResponse %+v closed=%v", resp, ps.IsClosed()))
+		return
+	}
+	secret := append([]byte(nil), ps.secureKey.extra...)
+	atomic.AddInt64(&mc.secretChecks, 1)
+	for j, old := range secrets {
+		if bytes.Equal(old, secret) {
+			what := "fresh-dialer-parameter"
+			if c.Param >= 0 {
+				what = "replayed-dialer-parameter"
+			}
+			fail("session-secret-of-an-earlier-session-reused:"+what, fmt.Sprintf("the new session has the secret of session #%d (%x): the responder contributed nothing fresh", j, secret))
+			break
+		}
+	}
+	if own != nil {
+		if err := own.setup(resp.SecureAeadSuite, resp.SecureParam, false, 2); err != nil || !bytes.Equal(own.extra, secret) {
+			fail("session-secret-mismatch", fmt.Sprintf("dialer derives %x, responder %x (err=%v)", own.extra, secret, err))
+		}
+	}
+	if c.Sig == -3 {
+		return
+	}
+	var sigPkt *Packet
+	switch {
+	case c.Sig >= 0:
+		sigPkt = sessions[c.Sig].sigReq // verbatim
+	case c.Sig == -1:
+		victim := e.ids[c.Honest[0]]
+		sigPkt = newPacket(p2pProtoAuth, p2pProtoAuthSignatureRequest,
+			codec.MP.MustMarshalToBytes(&SignatureRequest{PublicKey: victim.w.PublicKey(), Signature: attacker.auth.Signature(secret)}), NewPeerID(victim.idWant))
+	default:
+		sigPkt = newPacket(p2pProtoAuth, p2pProtoAuthSignatureRequest,
+			codec.MP.MustMarshalToBytes(&SignatureRequest{PublicKey: attacker.w.PublicKey(), Signature: attacker.auth.Signature(secret)}), NewPeerID(attacker.idWant))
+	}
+	pan = ev.Catch(func() { as.onPacket(sigPkt, ps) })
+	conn.drop() // possibly encrypted, not inspected
+	if pan != "" {
+		fail("panic-in-handleSignature-request", pan)
+		return
+	}
+	ok := nextS.called[ps] > 0
+	if ok {
+		atomic.AddInt64(&mc.accepted, 1)
+	} else {
+		atomic.AddInt64(&mc.refused, 1)
+	}
+	switch {
+	case c.Sig >= 0 && ok:
+		fail("handshake-request-proceeded:verbatim-replay-of-an-earlier-sessions-SignatureRequest", fmt.Sprintf("the connection was authenticated as %v without possession of that key", nextS.id[ps]))
+	case c.Sig == -1 && ok:
+		fail("handshake-request-proceeded:signed-by-another-key", fmt.Sprintf("authenticated as %v", nextS.id[ps]))
+	case c.Sig == -2 && !ok:
+		fail("handshake-request-refused-valid-proof", "an honest proof over this session's secret was refused: "+ps.CloseInfo())
+	case c.Sig == -2 && !bytes.Equal(nextS.id[ps].Bytes(), attacker.idWant):
+		fail("handshake-request-wrong-identity-assigned", fmt.Sprintf("id=%v", nextS.id[ps]))
+	}
+	if !ok && !ps.IsClosed() {
+		fail("handshake-request-refused-peer-left-open", "")
+	}
+}
+
+var (
+	c32AttackerOnce sync.Once
+	c32AttackerID   *c32Ident
+)
+
+func c32MultiAttacker() *c32Ident {
+	c32AttackerOnce.Do(func() { c32AttackerID = c32NewIdent("attacker") })
+	return c32AttackerID
+}
+
+func c32MultiCases(thorough bool) []*c32MultiCase {
+	type sa struct{ s, a int }
+	suites := []sa{{int(SecureSuiteNone), int(SecureAeadSuiteNone)}}
+	for _, a := range DefaultSecureAeadSuites {
+		suites = append(suites, sa{int(SecureSuiteEcdhe), int(a)}, sa{int(SecureSuiteTls), int(a)})
+	}
+	var honest [][]int
+	for v := 0; v < 3; v++ {
+		honest = append(honest, []int{v})
+	}
+	if thorough {
+		for v := 0; v < 3; v++ {
+			for w := 0; w < 3; w++ {
+				honest = append(honest, []int{v, w})
+			}
+		}
+	}
+	var out []*c32MultiCase
+	for _, h := range honest {
+		for _, su := range suites {
+			for param := -1; param < len(h); param++ {
+				if su.s == int(SecureSuiteTls) {
+					// a TLS server connection cannot be driven without a live peer: secret check only
+					out = append(out, &c32MultiCase{Stage: "multi", Honest: h, Suite: su.s, Aead: su.a, Param: param, Sig: -3})
+					continue
+				}
+				for sig := -2; sig < len(h); sig++ {
+					out = append(out, &c32MultiCase{Stage: "multi", Honest: h, Suite: su.s, Aead: su.a, Param: param, Sig: sig})
+				}
+			}
+		}
+	}
+	return out
+}
+
 // ---------------------------------------------------------------- the check
 
 func TestVerifC32(t *testing.T) {
@@ -998,6 +1216,10 @@ func TestVerifC32(t *testing.T) {
 			var c c32RelayCase
 			ev.ReplayCase(&c)
 			e.runRelay(r, &c, &a, &b)
+		case "multi":
+			var c c32MultiCase
+			ev.ReplayCase(&c)
+			e.runMulti(r, &c, &c32MultiCounters{})
 		case "history":
 			var c c32HistCase
 			ev.ReplayCase(&c)
@@ -1018,7 +1240,7 @@ func TestVerifC32(t *testing.T) {
 	}
 
 	nK, nS, nF := len(e.keyForms), len(e.secrets), len(e.sigForms)
-	r.Rule(fmt.Sprintf("identities A,B,C + the node itself (fixed keys); %d session secrets from {a 32-byte secret, the same with its last bit flipped, the empty secret, an unrelated one, a 31-byte prefix of the first}; %d public key encodings (65/33/hybrid, wrong lengths, wrong prefixes, negated point, off-curve, unreduced coordinate, empty) ; %d signature forms (as signed, without V, V altered, high-S twin, lengths 0/32/63/66, zeros, r/s swapped/zero/=n/unreduced, %d single-bit flips of every R|S byte). (V) VerifySignature on the full product claimed(3) x key form x signer(3) x signed secret x presented secret x signature form; (H) handleSignatureRequest and handleSignatureResponse on in-package peers for the product restricted to a representative subset of forms, x in/out of sequence x Error field x packet src; (R) real SecureRequest/SecureResponse exchanges, every session's SignatureRequest/Response relayed into every session of {A, A again, B, C}; (I) histories: N distinct keys (quick N in {99,100,101,150,210}, thorough also 1,50,102,199..202,310; peer id cache size 100) prove their identity one after the other via {VerifySignature, handleSignatureRequest, handleSignatureResponse} x 6 lookup patterns in between {none, first, odd, reverse sweep every 10, arbitrary-src filler, sliding middle}; at the end every key is looked up and verified again, starting from a fresh real peerIDCache; after every handshake and every lookup batch every id obtained so far and every authenticated Peer.ID() is compared byte-wise with SHA3(x||y)[12:] of the key it proved. Non-trivial = (V) key and signature both parse so that ECDSA verification decides, (H,R) every case; distinct = the case tuple.", nS, nK, nF, bits*64))
+	r.Rule(fmt.Sprintf("identities A,B,C + the node itself (fixed keys); %d session secrets from {a 32-byte secret, the same with its last bit flipped, the empty secret, an unrelated one, a 31-byte prefix of the first}; %d public key encodings (65/33/hybrid, wrong lengths, wrong prefixes, negated point, off-curve, unreduced coordinate, empty) ; %d signature forms (as signed, without V, V altered, high-S twin, lengths 0/32/63/66, zeros, r/s swapped/zero/=n/unreduced, %d single-bit flips of every R|S byte). (V) VerifySignature on the full product claimed(3) x key form x signer(3) x signed secret x presented secret x signature form; (H) handleSignatureRequest and handleSignatureResponse on in-package peers for the product restricted to a representative subset of forms, x in/out of sequence x Error field x packet src; (R) real SecureRequest/SecureResponse exchanges, every session's SignatureRequest/Response relayed into every session of {A, A again, B, C}; (M) one responder Authenticator, 1 (thorough: also 2) recorded honest sessions of A/B/C with suite none, then an attacker connection for every suite/aead in {none, ecdhe x 3 aeads, tls x 3 aeads} x SecureParam in {replayed from each earlier session, fresh} x SignatureRequest in {replayed verbatim from each earlier session, victim's key with the attacker's signature, honest proof of the attacker's own key} (tls: white-box secret check only): only the last may authenticate, and the new session's secret must differ from every earlier session's; every dialer connection offers a fresh parameter; (I) histories: N distinct keys (quick N in {99,100,101,150,210}, thorough also 1,50,102,199..202,310; peer id cache size 100) prove their identity one after the other via {VerifySignature, handleSignatureRequest, handleSignatureResponse} x 6 lookup patterns in between {none, first, odd, reverse sweep every 10, arbitrary-src filler, sliding middle}; at the end every key is looked up and verified again, starting from a fresh real peerIDCache; after every handshake and every lookup batch every id obtained so far and every authenticated Peer.ID() is compared byte-wise with SHA3(x||y)[12:] of the key it proved. Non-trivial = (V) key and signature both parse so that ECDSA verification decides, (H,R) every case; distinct = the case tuple.", nS, nK, nF, bits*64))
 	r.Assume("signatures are made by the real Authenticator.Signature with fixed keys; forging is represented by the mutation alphabet (no key-space search)",
 		"hybrid public key encodings and the high-S twin of a valid signature are mathematically valid proofs of possession: accepting or refusing them is both allowed",
 		"stage R uses fresh random ECDH keys (crypto/rand inside newSecureKey); the expected verdict does not depend on their values")
@@ -1216,6 +1438,50 @@ func TestVerifC32(t *testing.T) {
 	r.Set("relay_accepted", racc)
 	r.Set("relay_rejected", rrej)
 	r.Sanity(racc > 0 && rrej > 0, "relay outcomes not both seen")
+
+	// ---- stage M: several sessions on one responder, transcript replay
+	mc := &c32MultiCounters{}
+	mcases := c32MultiCases(r.Thorough())
+	var mdone int64
+	ev.Par(len(mcases), 16, func(i int) {
+		if r.Expired() {
+			return
+		}
+		r.Nontrivial(fmt.Sprintf("M%d", i))
+		e.runMulti(r, mcases[i], mc)
+		atomic.AddInt64(&mdone, 1)
+	})
+	// dialer side: every outgoing connection of one Authenticator offers a fresh parameter
+	for _, id := range e.ids {
+		a := newAuthenticator(id.w, e.log)
+		seen := map[string]bool{}
+		for k := 0; k < 3; k++ {
+			conn := c32NewConn()
+			p := newPeer(conn, false, "", e.log)
+			a.onPeer(p)
+			var rm SecureRequest
+			pk := conn.packets()
+			if len(pk) != 1 {
+				r.Sanity(false, "dialer wrote %d packets", len(pk))
+				continue
+			}
+			if _, err := codec.MP.UnmarshalFromBytes(pk[0].payload, &rm); err != nil {
+				r.Sanity(false, "SecureRequest undecodable: %v", err)
+				continue
+			}
+			if seen[string(rm.SecureParam)] {
+				r.Violation("dialer-reuses-its-ephemeral-parameter-across-sessions", fmt.Sprintf("identity %s offered the same SecureParam on two connections", id.name), nil)
+			}
+			seen[string(rm.SecureParam)] = true
+			p.Close("verif: done")
+		}
+	}
+	r.Set("multi_session_cases", mdone)
+	r.Set("multi_session_refused", mc.refused)
+	r.Set("multi_session_accepted_honest", mc.accepted)
+	r.Set("multi_session_secret_freshness_checks", mc.secretChecks)
+	r.Sanity(int(mdone) == len(mcases) || r.Expired(), "multi-session cases skipped")
+	r.Sanity(mc.refused > 0 && mc.accepted > 0 && mc.secretChecks > 0, "multi-session outcomes not all seen: %+v", *mc)
 
 	// ---- stage I (sequential: the histories own the process-wide peer id cache)
 	histN := []int{99, 100, 101, 150, 210}
